@@ -346,3 +346,13 @@ class State:
         self.cl_ctr += 1
         self.cl[self.cl_ctr] = tuple(items)
         return VCList(self.cl_ctr, elem)
+
+
+def FA(vs, body, patterns=None, **kw):
+    """ForAll with patterns when they are admissible (a pattern may not contain a lambda/quantifier)."""
+    if patterns:
+        try:
+            return z3.ForAll(vs, body, patterns=patterns, **kw)
+        except z3.Z3Exception:
+            pass
+    return z3.ForAll(vs, body, **kw)
